@@ -214,6 +214,10 @@ def replay_monitor(script, c, rtcp=False):
                 continue
             ref = refs.setdefault(s, RtcpRef() if rtcp else RtpRef(128 if ws == 0 else ws))
             ok = int(o[2], 16) == 0
+            if ok and idx in ref.seen:
+                # an authentic packet authenticates only under its own index: a second acceptance is a second acceptance of that index
+                hits.append({"what": f"{'SRTCP' if rtcp else 'SRTP'} receiver accepted the same packet index twice",
+                             "signature": f"{'srtcp' if rtcp else 'srtp'}-api-accepted-twice", "detail": f"line {i-1}: index {idx:x}"}); return hits
             if not rtcp and ((ref.seen and abs(idx - ref.hi) >= 32768) or (not ref.seen and idx >= 65536)):
                 # beyond what the index estimator can follow: outside the property's premise;
                 # keep the reference in step with what the receiver did
@@ -245,3 +249,59 @@ def replay_monitor(script, c, rtcp=False):
                 hits.append({"what": "receiver's rollover counter differs from the ROC of the highest accepted packet", "signature": "roc-out-of-sync",
                              "detail": f"line {i-1}: roc {o[3]} expected {ref.hi >> 16:x}"}); return hits
     return hits
+
+
+def resync_redeliver(rng, tier):
+    """sender 1 / receiver 2, some traffic, then srtp_stream_set_roc on both sides to a later ROC (the
+    index-advance path of srtp_unprotect), then every packet is delivered more than once, interleaved with
+    newer packets.  Judged by redeliver_monitor: no protect output is accepted twice."""
+    ssrc = rng.randrange(2, 1 << 32)
+    p = default_policy(rng, ssrc, window=rng.choice([0, 64, 128, 1024]))
+    L = [p.line(1), "create 1 1", "create 2 1"]
+    idx = rng.choice([0, 1, 100, 40000, 65530])
+    pool = []
+    def send():
+        pkt = rtp_packet(ssrc, idx & 0xffff, payload=idx.to_bytes(6, "big"))
+        L.append(pkt_op("protect", 1, pkt, extra=40)); pool.append(len(L))
+    def deliver(line):
+        L.append(pkt_op("unprotect", 2, f"@{line:x}", cap=100)); L.append(f"# D {ssrc:x} 0 {line:x}")
+    for rounds in range(2 if tier == "quick" else 6):
+        for _ in range(rng.choice([0, 1, 3, 8])):
+            send(); deliver(pool[-1])
+            if rng.random() < 0.5:
+                deliver(rng.choice(pool[-3:]))
+            idx += rng.choice([1, 1, 2, 7])
+        r = (idx >> 16) + rng.choice([1, 1, 2, 3, 100])
+        L.append(f"setroc 1 {H(ssrc)} {H(r)}"); L.append(f"setroc 2 {H(ssrc)} {H(r)}")
+        idx = (r << 16) | (idx & 0xffff)
+        first = len(pool)
+        for _ in range(rng.choice([1, 2, 4])):
+            send(); deliver(pool[-1]); 
+            for _ in range(rng.choice([1, 1, 2])):
+                deliver(rng.choice(pool[first:]))
+            idx += rng.choice([1, 1, 2])
+        for ln in pool[first:]:
+            deliver(ln)
+    L += ["dealloc 1", "dealloc 2"]
+    return "\n".join(L) + "\n"
+
+
+def redeliver_monitor(script, c):
+    """premise-free: one protect output (an authentic packet, which authenticates only under its own index)
+    is accepted at most once by the receiving session"""
+    sl = script.split("\n")
+    out = {int(l.split()[0]): l.split() for l in c if l.strip()}
+    acc = {}
+    for i, l in enumerate(sl, 1):
+        t = l.split()
+        if len(t) >= 5 and t[0] == "#" and t[1] == "D":
+            line = int(t[4], 16)
+            src, o = out.get(line, []), out.get(i - 1, [])
+            if len(src) < 3 or int(src[2], 16) != 0 or len(o) < 3:
+                continue
+            if int(o[2], 16) == 0:
+                if line in acc:
+                    return [{"what": "SRTP receiver accepted the same authentic packet twice", "signature": "srtp-api-accepted-twice",
+                             "detail": f"packet made at line {line} accepted at lines {acc[line]} and {i-1}"}]
+                acc[line] = i - 1
+    return []
